@@ -25,7 +25,7 @@ WATCHDOG = {"quick": 20, "thorough": 60}
 RULE = ("Cases: 20..80 descriptors (thorough 250) in 1..4 dimensions from 1..3 anisotropic clusters, 15% with a coordinate that is a "
         "multiple of another (degenerate), weights None / positive, grids of 2..sqrt(n)+2 points (random subset, farthest-point subset or "
         "arbitrary points), fpoints in (0.1,0.8) or fspread in (0.05,1), optional cell (1.2..3 x extent, or all sides 2 pi), 4 queries "
-        "near the data and 2 far away; translations, permutations of descriptors and grid points, integer image shifts -2..2 of "
+        "near the data, 2 far away and 2 sharing all but one coordinate with a descriptor; refit of the same object on a second grid; translations, permutations of descriptors and grid points, integer image shifts -2..2 of "
         "descriptors, queries and (in half of the periodic cases) grid points.  Precondition by construction/classification: "
         "max(fpoints, largest grid weight + 1/n) <= 0.9 (fit does not terminate otherwise, DESIGN 3.4).  Non-trivial: >= 2 grid points "
         "with members and both the far (grid-level) and the near (descriptor-level) branch taken by some query; distinct = SHA-1 of the case.")
@@ -74,9 +74,12 @@ def strategy_(draw, tier):
     A = [rng.normal(size=(D, D)) * rng.uniform(0.2, 1) for _ in range(nc)]
     z = rng.integers(0, nc, n)
     desc = np.array([cen[k] + A[k] @ rng.normal(size=D) for k in z])
-    degenerate = D > 1 and draw(st.integers(0, 99)) < 15
+    degenerate = D > 1 and draw(st.integers(0, 99)) < 20
     if degenerate:
-        desc[:, -1] = desc[:, 0] * 0.5
+        if draw(st.booleans()):
+            desc[:, -1] = desc[:, 0] * 0.5
+        else:
+            desc[:, -1] = 0.5            # cloud confined to a coordinate plane
     w = None if draw(st.booleans()) else rng.uniform(0.2, 2, size=n)
     ng = draw(st.integers(2, max(3, int(np.sqrt(n)) + 2)))
     gkind = draw(st.sampled_from(["subset", "subset", "fps", "arbitrary"]))
@@ -105,9 +108,15 @@ def strategy_(draw, tier):
     val = float(rng.uniform(0.1, 0.8)) if mode == "fpoints" else float(rng.uniform(0.05, 1.0))
     Q = np.vstack([rng.normal(size=(4, D)) * 0.7 * desc.std() + desc[rng.integers(0, n, 4)],
                    rng.normal(size=(2, D)) * 8 * desc.std() + desc.mean(0)])
+    # two queries that share all but one coordinate with a descriptor (they are not descriptors)
+    for _ in range(2):
+        q = desc[rng.integers(0, n)].copy()
+        q[rng.integers(0, D)] += 0.3 * desc.std() * (1 + rng.random())
+        Q = np.vstack([Q, q])
     return {"desc": desc, "w": w, "grid": grid, "gkind": gkind, "cell": cell, "cellkind": ck, "mode": mode, "val": val, "Q": Q,
             "degenerate": degenerate, "shift": rng.normal(size=D) * 5,
             "shd": rng.integers(-2, 3, size=(n, D)), "shg": rng.integers(-2, 3, size=(ng, D)), "shq": rng.integers(-2, 3, size=(len(Q), D)),
+            "grid2": desc[rng.choice(n, ng, replace=False)].copy(),
             "shift_grid": draw(st.booleans()), "perm": rng.permutation(n), "permg": rng.permutation(ng)}
 
 
@@ -266,6 +275,27 @@ def evaluate(case, ctx, substitute=False, only=None):
         ctx.count("queries_near_terms", near)
         if (gw > 0).sum() >= 2 and far > 0 and near > 0:
             ctx.nontrivial = True
+    # ---- refit of the same object on another grid == fresh estimator on that grid ----------------------------
+    refit_ok = only is None and "grid2" in case
+    if refit_ok and case["mode"] == "fpoints":
+        lab2 = (sqd(desc, case["grid2"], cell) ** 2).sum(-1).argmin(1)
+        gw2 = np.array([ww[lab2 == j].sum() for j in range(len(case["grid2"]))])
+        refit_ok = max(case["val"], gw2.max() + 1.0 / n) <= 0.9          # same termination precondition as for the first grid
+    if refit_ok:
+        try:
+            with CovRecorder(substitute):
+                kde.fit(case["grid2"].copy())
+                s_re = np.asarray(kde.score_samples(Q))
+                s_fr = np.asarray(make(case, desc, w, case["grid2"], None).score_samples(Q))
+            both = np.isfinite(s_re) & np.isfinite(s_fr)
+            if not np.array_equal(np.isfinite(s_re), np.isfinite(s_fr)):
+                ctx.fail("refit==fresh", "finite pattern differs after refitting on another grid")
+            elif both.any():
+                ctx.close("refit==fresh", s_re[both], s_fr[both], 1e-9 * max(1.0, float(np.abs(s_fr[both]).max())),
+                          "score_samples after fit(A), score, fit(B) vs a fresh estimator fitted on B")
+            ctx.count("refits_checked")
+        except np.linalg.LinAlgError:
+            ctx.skip("refit grid: proviso (LinAlgError)")
     # ---- invariances --------------------------------------------------------------------------------------
     fs = np.isfinite(s)
 
